@@ -375,5 +375,75 @@ class LongHistory(Part):
         return res
 
 
+def near_variants(base):
+    """Plaintexts that a lossy key normalisation (stripping, case folding, unquoting, truncation) would
+    identify with `base` - all different secrets."""
+    out = [base]
+    for h, t in (("", ";"), ("", ","), ("[", "]"), ("{", "}"), ("'", "'"), ('"', '"'), (" ", ""), ("", " "),
+                 ("\\", ""), ("", "\\"), ("\t", ""), ("", "\n"), ("$9$", ""), ("", "$")):
+        out.append(h + base + t)
+    out += [base.upper(), base.lower(), base.swapcase(), base[:-1], base[1:], base + base, base + "\x00",
+            base.replace("u", "\u00fc")]
+    seen, res = set(), []
+    for v in out:
+        if v not in seen and v and all(ord(c) < 256 for c in v):
+            seen.add(v)
+            res.append(v)
+    return res
+
+
+class NearPlaintexts(Part):
+    name = "near_equal_plaintexts"
+    desc = "every ordered pair of $9$ plaintexts differing only by surrounding punctuation / case / blanks in one run: different replacements"
+
+    def __init__(self, tier, seed):
+        self.tier, self.seed = tier, seed
+
+    def cases(self):
+        bases = ["hunter2", "Tr0ub4dor"] + (["pa55", "Xy"] if self.tier == "thorough" else [])
+        return [{"base": b, "i": i} for b in bases for i in range(len(near_variants(b)))]
+
+    def run(self, case):
+        from netconan.anonymize_files import FileAnonymizer
+
+        res = Res()
+        V = near_variants(case["base"])
+        x = V[case["i"]]
+        js = [case["j"]] if "j" in case else range(len(V))
+        for j in js:
+            y = V[j]
+            for ysalt, yclear in (("k", False), ("Q", False), (None, True)):
+                if yclear and (y != y.strip() or any(c in y for c in " \t\n\"';,[]{}\\\x00$")):
+                    continue   # only plain words can stand in clear text in the line form
+                res.evals += 1
+                ex = refs.j9_encode(x, "Q", "xyz")
+                ey = y if yclear else refs.j9_encode(y, ysalt, "QQQ")
+                with seams.capture_logs():
+                    fa = FileAnonymizer(anon_pwd=True, anon_ip=False, salt="saltForTest")
+                    reps = []
+                    for sct in (ex, ey):
+                        buf = io.StringIO()
+                        fa.anonymize_io(io.StringIO('set system x secret "%s"\n' % sct), buf)
+                        tok = buf.getvalue().rstrip("\n").split(" ")[-1].strip('"')
+                        reps.append(canon_repl(tok).split(":", 1))
+                res.out((x == y, reps[0][1] == reps[1][1]))
+                if x != y:
+                    res.nt((x, y, yclear))
+                kind = None
+                if reps[0][0] == "malformed" or reps[1][0] == "malformed":
+                    kind = "replacement-not-decodable"
+                elif x == y and reps[0][1] != reps[1][1]:
+                    kind = "equal-secrets-different-replacements"
+                elif x != y and reps[0][1] == reps[1][1]:
+                    kind = "different-secrets-same-replacement"
+                if kind:
+                    res.violation("%s|near-plaintexts|%s" % (kind, "clear" if yclear else "j9"),
+                                  "plaintexts %r then %r (%s) in one run -> replacements %r" % (
+                                      x, y, "clear text" if yclear else "$9$", reps), dict(case, j=j))
+        if "j" not in case:
+            res.samples.append({"plaintext": x, "against": len(V)})
+        return res
+
+
 def parts(tier, seed):
-    return [HistoryPart(tier, seed), SaltChars(tier, seed), LongHistory(tier, seed)]
+    return [HistoryPart(tier, seed), SaltChars(tier, seed), LongHistory(tier, seed), NearPlaintexts(tier, seed)]
